@@ -264,6 +264,32 @@ def run(ctx):
                      'the cancelling removal drops the entry and its timer and does not resolve the (abandoned) call', [m.loc(m.d)])
         R.ob('C03.cancel', ('dispatch poll', 'cancel is written'), True, 'the Cancel message is handed to the transport', [g.loc(st_)])
 
+    # ------------------------------------------------------------------ 6b. who may forget a request without resolving its call
+    # An entry leaves the client table either by resolving the call (response, expiry, shutdown: the removal's bodies send on the completion channel) or silently.
+    # A silent removal is legitimate only for an id taken from the cancellation queue, because only there the Cancel follows (C03.cancel / C03.owed).  Any other
+    # silent removal — a sweep of "abandoned" entries, a removal by predicate — forgets a transmitted request whose later cancellation then finds no entry: no Cancel.
+    is_q = lambda r: P.is_call(r, 'poll_next_unpin', 'Stream::poll_next', 'UnboundedReceiver::poll_recv', 'CanceledRequests::poll_recv')
+    n_silent = 0
+    for m in table.removing():
+        if table.is_helper(m) or (m.impl_of and (m.impl_of.get('trait') or '').endswith('Drop')):
+            continue
+        if any(callee_is(t2, 'oneshot::Sender::send') for x in table.bodies(m) for _, t2 in x.calls()):
+            continue
+        n_silent += 1
+        sites_ = [(g_, b_, t_) for g_ in F.fns.values() if not F.is_derived(g_) for b_, t_ in g_.calls() if F.callee_fn(t_) is m]
+        oks_ = []
+        for g_, b_, t_ in sites_:
+            fromq = False
+            for a_ in t_['args'][1:]:
+                rs_ = P.root(P.operand(g_, a_, at=b_), through_params=True)      # the id may be handed down through private helpers of the dispatch
+                if rs_ and all(is_q(r) for r, _ in rs_):
+                    fromq = True
+            oks_.append(fromq)
+        R.ob('C03.removals', ('client table', m.npath.split('::')[-1], 'silent removal only for ids from the cancellation queue'), bool(sites_) and all(oks_),
+             'a request is forgotten without resolving its call only under an id taken from the cancellation queue (where the Cancel follows): no other path drops a transmitted request\'s entry',
+             [g_.loc(t_) for (g_, _, t_), o_ in zip(sites_, oks_) if not o_] or [m.loc(m.d)])
+    R.ob('C03.removals', ('client table', 'cancelling removal found'), n_silent >= 1, 'the client table has an entry point that removes without resolving (the cancelling removal)', [poll.loc(poll.d)], '%d' % n_silent)
+
     # ------------------------------------------------------------------ 7. a consumed cancellation is written (or the connection ends) — E-SHAPE
     owed_rule(ctx, 'C03.owed', poll)
     from .shape_common import run_jobs
